@@ -183,8 +183,21 @@ type Loop struct {
 	// Fill puts v-html / v-text on the looped element itself (its content is then the value
 	// of the path; Body is not rendered). Not on <template>.
 	Fill *Fill  `json:"fill,omitempty"`
+	// Spell selects one of the equivalent spellings of the loop header (nil = the common one).
+	Spell *Spell `json:"spell,omitempty"`
 	Body []Node `json:"body,omitempty"`
 	Else *Else  `json:"else,omitempty"`
+}
+
+// Spell: equivalent spellings of `(i, v) in a.b`; the expectation is the same for all.
+type Spell struct {
+	Vars   int  `json:"vars,omitempty"`   // (i, v) | (i,v) | ( i , v ) | (i ,v) | line break / tab after the comma; single variable: padded
+	In     int  `json:"in,omitempty"`     // " in " | "  in  " | line break before " in " | " in  " | line break after | tabs | CRLF both sides | line break directly before
+	Pad    bool `json:"pad,omitempty"`    // blanks at both ends of the attribute value
+	Path   int  `json:"path,omitempty"`   // a.b / a.0.b | a['b'] / a[0]['b'] | a["b"] (single-quoted attribute) | a[0].b
+	Single bool `json:"single,omitempty"` // single-quoted attribute value
+	Upper  bool `json:"upper,omitempty"`  // V-FOR
+	Extra  int  `json:"extra,omitempty"`  // elements only: 1 class="k" before v-for, 2 :key="<index>" after, 3 :key before
 }
 
 // Fill is a content directive: Dir "v-html" or "v-text".
